@@ -1,1 +1,95 @@
-(* placeholder *)
+(* BoxCycle.v -- executable model of TypeGraph + BoxedPlugin (C14).
+
+   Modelled code:
+     pilota-build/src/middle/type_graph.rs  TypeGraph::from_items, is_nested
+     pilota-build/src/plugin/mod.rs         BoxedPlugin::on_item (lines 168-184)
+     pilota-build/src/codegen/mod.rs        write_struct: `if adjust.boxed() { ty = Box<ty> }`
+   A type is laid out "by value" inside another through: a message field whose type is directly a path
+   (`ty::Path`, optional or not -- Option<T> holds T by value), an enum/union variant payload that is
+   directly a path, a newtype of a path.  Vec / Set / Map / Arc are indirections and are not edges
+   (TypeGraph only looks at `ty::Path` at the top of the type).  petgraph's has_path_connecting is
+   modelled as reflexive-transitive reachability.  No proofs here. *)
+From Coq Require Import List Bool Arith.
+Import ListNotations.
+
+Inductive fty := TPath (d : nat) | TOther.
+
+Inductive item :=
+| IMsg (fields : list fty)              (* struct / exception / protobuf message *)
+| IEnum (variants : list (list fty))    (* enum, union, oneof: payload types per variant *)
+| INewType (t : fty)                    (* typedef *)
+| IOther.                               (* service, const, mod: no edges *)
+
+Definition graph := list (nat * item).  (* DefId -> item *)
+
+Fixpoint paths (l : list fty) : list nat :=
+  match l with [] => [] | TPath d :: r => d :: paths r | TOther :: r => paths r end.
+
+Definition item_targets (it : item) : list nat :=
+  match it with
+  | IMsg fs => paths fs
+  | IEnum vs => paths (concat vs)
+  | INewType t => paths [t]
+  | IOther => []
+  end.
+
+Definition edges_of (targets : nat -> item -> list nat) (g : graph) : list (nat * nat) :=
+  flat_map (fun di => map (pair (fst di)) (targets (fst di) (snd di))) g.
+
+(* TypeGraph::from_items *)
+Definition edges (g : graph) : list (nat * nat) := edges_of (fun _ it => item_targets it) g.
+
+(* has_path_connecting(a, b): depth-first search; the out-edges of a node are dropped once it has been
+   expanded (a simple path never leaves the same node twice), so |E| + 1 levels always suffice *)
+Definition succs (E : list (nat * nat)) (a : nat) : list nat :=
+  map snd (filter (fun e => fst e =? a) E).
+Definition drop_from (E : list (nat * nat)) (a : nat) : list (nat * nat) :=
+  filter (fun e => negb (fst e =? a)) E.
+
+Fixpoint dfs (fuel : nat) (E : list (nat * nat)) (a b : nat) : bool :=
+  match fuel with
+  | 0 => false
+  | S f => (a =? b) || existsb (fun c => dfs f (drop_from E a) c b) (succs E a)
+  end.
+
+Definition reachb (E : list (nat * nat)) (a b : nat) : bool := dfs (S (length E)) E a b.
+
+(* TypeGraph::is_nested(a, b) *)
+Definition is_nested (g : graph) (a b : nat) : bool := reachb (edges g) a b.
+
+(* BoxedPlugin: field f of message `owner` gets Box iff its type is a path that reaches the owner *)
+Definition boxed (g : graph) (owner : nat) (t : fty) : bool :=
+  match t with TPath d => is_nested g d owner | TOther => false end.
+
+(* what is still held by value after boxing *)
+Definition residual_targets (g : graph) (d : nat) (it : item) : list nat :=
+  match it with
+  | IMsg fs => paths (filter (fun t => negb (boxed g d t)) fs)
+  | _ => item_targets it
+  end.
+Definition residual_edges (g : graph) : list (nat * nat) := edges_of (residual_targets g) g.
+
+(* by-value edges that do not start at a message field (never boxed) *)
+Definition nonstruct_targets (it : item) : list nat :=
+  match it with IMsg _ => [] | _ => item_targets it end.
+Definition nonstruct_edges (g : graph) : list (nat * nat) := edges_of (fun _ it => nonstruct_targets it) g.
+
+(* decision list for the correspondence: (owner, field index, boxed?) for every path-typed message field *)
+Fixpoint box_fields (g : graph) (owner : nat) (i : nat) (fs : list fty) : list (nat * nat * bool) :=
+  match fs with
+  | [] => []
+  | TPath d :: r => (owner, i, is_nested g d owner) :: box_fields g owner (S i) r
+  | TOther :: r => box_fields g owner (S i) r
+  end.
+Definition box_decisions (g : graph) : list (nat * nat * bool) :=
+  flat_map (fun di => match snd di with IMsg fs => box_fields g (fst di) 0 fs | _ => [] end) g.
+
+(* specification side *)
+Inductive reach (E : list (nat * nat)) : nat -> nat -> Prop :=
+| reach_refl a : reach E a a
+| reach_step a c b : In (a, c) E -> reach E c b -> reach E a b.
+
+Definition on_cycle (E : list (nat * nat)) (a : nat) : Prop := exists c, In (a, c) E /\ reach E c a.
+
+(* rustc accepts the layout iff the by-value graph is acyclic (E0072 otherwise) *)
+Definition finite_size (g : graph) : Prop := forall a, ~ on_cycle (residual_edges g) a.
